@@ -1,0 +1,11 @@
+//go:build verif
+
+package utils
+
+import "sync"
+
+// ResetLocalLocksForSim forgets every process-local lock, as a restart of the server
+// process would. Only compiled with the build tag `verif`.
+func ResetLocalLocksForSim() {
+	localLockMap = sync.Map{}
+}
